@@ -269,10 +269,27 @@ def r4(chk, fx):
     name = [n for n in fx.thir if n.endswith("::read_xml") and "for " + AGENT + "::policies::Policies<T>" in n and "closure" not in n]
     if len(name) != 1:
         raise F.AnchorLost("Policies<T>::read_xml")
-    txt = X.ntext(T.user_body(fx.thir[name[0]]))
-    ok = "ifletEntry::Vacant(entry)=HashMap::entry(map,Clone::clone(name))" in txt and "detectedduplicatepolicy-statement" in txt.replace("'", "") or \
-        ("Entry::Vacant(entry)" in txt and "returnResult::Err(" in txt)
-    chk.instance("C16/R4", "duplicate policy names are an error (Entry::Vacant or Err)", name[0], None, holds=ok, key="C16/R4 duplicate-names")
+    # decided on the explored paths of the container reader (helpers inlined): a path that assumes the freshly read name is already
+    # in the map (entry Occupied / contains_key true / insert returned the previous value) must end in `return Err`
+    dup, fresh = [], []
+    for p in A.Interp(fx, crates=(AGENT,), max_paths=8000).explore(name[0]):
+        present = None
+        for k, v in p.assume.items():
+            if k.startswith("variant:HashMap::entry(") and v in ("Occupied", "Vacant"):
+                present = v == "Occupied"
+            elif k.startswith("notvariant:HashMap::entry(") and "Vacant" in v:
+                present = True
+            elif k.startswith("HashMap::contains_key(") and isinstance(v, bool):
+                present = v
+            elif k.startswith("variant:HashMap::insert(") and v in ("Some", "None"):
+                present = v == "Some"
+        if present is None or p.end == "abort":
+            continue
+        (dup if present else fresh).append(p)
+    ok = bool(dup) and bool(fresh) and all(p.end == "return" and A.is_res(p.ret) and p.ret[2] == "Err" for p in dup) and \
+        all(not (p.end == "return" and A.is_res(p.ret) and p.ret[2] == "Err") for p in fresh)
+    chk.instance("C16/R4", "a policy-statement whose name was already read is an error; a new name is stored (%d / %d paths)" % (len(dup), len(fresh)),
+                 name[0], None, holds=ok, key="C16/R4 duplicate-names")
 
 
 # ---------------------------------------------------------------------------------------------
